@@ -194,8 +194,8 @@ def check_values(rec, step, spec, result, mm, label, skip_constants=()):
   for key in sorted(result):
     qsv = result[key]
     if key not in names:
-      rec.violate('C09/ema-mismatch/runtime', step, '%s: key %r names no tensor of the model' % (label, key))
-      return False
+      rec.probe('result_key_not_a_tensor_name')   # auxiliary entries are not the property's business
+      continue
     if not qsv:
       continue  # registered but never observed (e.g. no sample folded yet)
     if 'min' not in qsv or 'max' not in qsv:
